@@ -134,3 +134,37 @@ func VH_C15_v2_fresh() {
 	vrt.FrameUnchanged("a decode step on one object changes neither another object nor any package-level table")
 	vrt.Assert(!b.names[tok] && !b.Temporal.names[tok] && !b.Base.names[tok] && b.IsEmpty() && b.Temporal.IsEmpty(), "the other object's names maps are still empty")
 }
+
+// history-freedom, observationally (v2): see the v3 counterpart.
+func VH_C15_v2_history() {
+	vec1, _, _, _, _, _, _ := pickBase()
+	esuf1, _, _, _, _, _ := pickEnv()
+	vec2, _, _, _, _, _, _ := pickBase()
+	tsuf2, _, _, _ := pickTemporal()
+	esuf2, _, _, _, _, _ := pickEnv()
+	junk := vrt.StringNo("junk", "/")
+	if vrt.HistoryStep() {
+		em1, err1 := NewEnvironmental().Decode(vec1 + esuf1)
+		if err1 == nil {
+			_ = em1.Score()
+			_ = em1.Severity()
+			_, _ = em1.Encode()
+			_ = em1.IsEmpty()
+			_ = em1.TemporalMetrics().Score()
+			_ = em1.BaseMetrics().Score()
+		}
+		_, _ = NewEnvironmental().Decode(junk)
+		_, _ = NewBase().Decode(vec1 + "/" + junk)
+	}
+	em2, err := NewEnvironmental().Decode(vec2 + tsuf2 + esuf2)
+	vrt.Observe("accepted", err == nil)
+	if err != nil {
+		return
+	}
+	enc, _ := em2.Encode()
+	vrt.Observe("score", em2.Score())
+	vrt.Observe("severity", int(em2.Severity()))
+	vrt.Observe("encoding", enc)
+	vrt.Observe("temporal score", em2.TemporalMetrics().Score())
+	vrt.Observe("base score", em2.BaseMetrics().Score())
+}
